@@ -150,7 +150,7 @@ theorem C16_delay_line_tracks_rate (C : FxChain ℝ φ)
     (fun _ _ _ _ _ _ => trivial) hlen d.delayNs evs (d.init C sr0 ibs, sr0) (d', sr)
     ⟨by simp [Delay.init], rfl, trivial⟩ h
   have hL : d'.buffer.length = max ⌊(d.delayNs : ℝ) / 1000000000 * (sr : ℝ)⌋₊ 1 := by
-    rw [hinv.1]; simp [Delay.frames, durToSecs_real]
+    rw [hinv.1]; exact Delay.frames_real _ _
   refine ⟨hL, hinv.2.1, ?_⟩
   intro hsr h1
   have hfl : 1 ≤ ⌊(d.delayNs : ℝ) / 1000000000 * (sr : ℝ)⌋₊ := Nat.le_floor (by simpa using h1)
